@@ -1,6 +1,16 @@
 HOOK_COMMITS = ["91ffc11"]
 NOT_APPLICABLE = {}
 ENTRIES = {
+    "C18": {
+        "text": "Theorems for every adapter stack, inner read/write script and operation sequence: reads deliver, in order and "
+                "within the caller's capacity, exactly replay-prefix ++ inner stream (nothing lost, duplicated, invented); what "
+                "reaches the inner writer is exactly what plain/vectored writes reported accepted; flush/shutdown are forwarded; the "
+                "in-process pipe is FIFO in both directions and propagates data and end-of-stream. Model tied to the real adapters "
+                "(run-time composed stacks, real duplex/unix/tcp pipes) by differential runs.",
+        "note": "Partial: memory safety of the three unsafe blocks is not expressible in the model; tokio's duplex and the kernel "
+                "sockets are assumed; TLS streams are covered under C12.",
+        "design_ref": "DESIGN.md §5 C18",
+    },
     "C13": {
         "text": "Theorems for every request (any method, scheme, host, port, path, query, version, header list): on an HTTP/1 "
                 "connection the target is origin-form with path/query preserved and '/' for an empty path (authority-form for "
